@@ -28,6 +28,49 @@ type plVal struct {
 	IsStr bool
 	I     int64
 	S     string
+	Big   bool   // unsigned integer above MaxInt64, kept in U
+	U     uint64
+}
+
+func plBigV(u uint64) plVal {
+	if u <= 1<<63-1 {
+		return plIntV(int64(u))
+	}
+	return plVal{Big: true, U: u}
+}
+
+// plIntCmp orders two integer values (int64, or unsigned above MaxInt64).
+func plIntCmp(a, b plVal) int {
+	switch {
+	case a.Big && b.Big:
+		if a.U < b.U {
+			return -1
+		} else if a.U > b.U {
+			return 1
+		}
+		return 0
+	case a.Big:
+		return 1
+	case b.Big:
+		return -1
+	case a.I < b.I:
+		return -1
+	case a.I > b.I:
+		return 1
+	}
+	return 0
+}
+
+// plParseInt converts a numeric string the way an integer column would store it.
+func plParseInt(s string) (plVal, error) {
+	if n, err := strconv.ParseInt(s, 10, 64); err == nil {
+		return plIntV(n), nil
+	}
+	u, err := strconv.ParseUint(s, 10, 64)
+	if err != nil {
+		return plVal{}, err
+	}
+	return plBigV(u), nil
 }
 
 func plIntV(i int64) plVal  { return plVal{I: i} }
@@ -40,6 +83,8 @@ func (v plVal) String() string {
 		return "NULL"
 	case v.IsStr:
 		return "'" + v.S + "'"
+	case v.Big:
+		return strconv.FormatUint(v.U, 10)
 	}
 	return strconv.FormatInt(v.I, 10)
 }
@@ -154,10 +199,7 @@ func plValueOf(v *driver.ValueExpr) (plVal, error) {
 	case int64:
 		return plIntV(x), nil
 	case uint64:
-		if x > 1<<63-1 {
-			return plVal{}, plErrUnsupported("uint64 literal above MaxInt64")
-		}
-		return plIntV(int64(x)), nil
+		return plBigV(x), nil
 	case string:
 		return plStrV(x), nil
 	}
@@ -182,8 +224,8 @@ func plScalar(e *plEnv, n ast.ExprNode) (plVal, string, error) {
 			if v.Null {
 				return v, t, nil
 			}
-			if v.IsStr {
-				return v, t, plErrUnsupported("unary minus on a string")
+			if v.IsStr || v.Big {
+				return v, t, plErrUnsupported("unary minus on a string or a big unsigned")
 			}
 			return plIntV(-v.I), t, nil
 		}
@@ -200,8 +242,8 @@ func plScalar(e *plEnv, n ast.ExprNode) (plVal, string, error) {
 			if a.Null || b.Null {
 				return plNullV(), at, nil
 			}
-			if a.IsStr || b.IsStr {
-				return a, at, plErrUnsupported("arithmetic on a string")
+			if a.IsStr || b.IsStr || a.Big || b.Big {
+				return a, at, plErrUnsupported("arithmetic on a string or a big unsigned")
 			}
 			if x.Op == opcode.Plus {
 				return plIntV(a.I + b.I), plTInt, nil
@@ -272,25 +314,19 @@ func plCompare(a plVal, at string, b plVal, bt string) (int, bool, error) {
 		}
 		return strings.Compare(x, y), false, nil
 	case plTInt:
-		x, y := a.I, b.I
+		x, y := a, b
 		var err error
 		if a.IsStr {
-			if x, err = strconv.ParseInt(a.S, 10, 64); err != nil {
+			if x, err = plParseInt(a.S); err != nil {
 				return 0, false, plErrUnsupported("int column compared with non-numeric string " + a.S)
 			}
 		}
 		if b.IsStr {
-			if y, err = strconv.ParseInt(b.S, 10, 64); err != nil {
+			if y, err = plParseInt(b.S); err != nil {
 				return 0, false, plErrUnsupported("int column compared with non-numeric string " + b.S)
 			}
 		}
-		switch {
-		case x < y:
-			return -1, false, nil
-		case x > y:
-			return 1, false, nil
-		}
-		return 0, false, nil
+		return plIntCmp(x, y), false, nil
 	default:
 		if !a.IsStr || !b.IsStr {
 			return 0, false, plErrUnsupported("string column compared with a number")
@@ -462,7 +498,7 @@ func plCond3(e *plEnv, n ast.ExprNode) (int, error) {
 		if v.IsStr {
 			return 0, plErrUnsupported("string literal as a condition")
 		}
-		return plBool3(v.I != 0), nil
+		return plBool3(v.I != 0 || v.Big), nil
 	}
 	return 0, plErrUnsupported(fmt.Sprintf("condition node %T", n))
 }
@@ -756,8 +792,10 @@ type plSent struct {
 
 type plExec struct {
 	Store   *plStore
+	Fixed   uint64 // without a store: affected rows reported per statement
 	Sent    []plSent
 	ExecErr error // first error raised by the store (invalid rewritten text...)
+	NoLog   bool  // do not keep Sent (used from several goroutines)
 	lastID  uint64
 }
 
@@ -787,8 +825,12 @@ func (x *plExec) ExecuteSQLs(ctx *util.RequestContext, sqls map[string]map[strin
 		sort.Strings(dbs)
 		for _, d := range dbs {
 			for _, q := range sqls[sl][d] {
-				x.Sent = append(x.Sent, plSent{Slice: sl, DB: d, SQL: q})
-				r := &mysql.Result{}
+				if !x.NoLog {
+					x.Sent = append(x.Sent, plSent{Slice: sl, DB: d, SQL: q})
+				}
+				// like DirectConnection.handleOKPacket: an OK result from the pool, every field assigned
+				r := mysql.ResultPool.GetWithoutResultSet()
+				r.AffectedRows, r.InsertID, r.Status, r.Warnings, r.Info = x.Fixed, 0, mysql.ServerStatusAutocommit, 0, ""
 				if x.Store != nil {
 					n, err := x.Store.execModify(sl, d, q)
 					if err != nil {
